@@ -1208,7 +1208,9 @@ class LineCoverageInstrumentation(transformer.LineCoverageInstrumentationAdapter
         Returns:
             True if the line should be instrumented, False otherwise.
         """
-        return instr.lineno != lineno
+        # Instructions without a line number (e.g., the implicit exception handler of a
+        # generator) do not belong to any source line.
+        return isinstance(instr.lineno, int) and instr.lineno != lineno
 
     def visit_node(  # noqa: D102
         self,
@@ -1287,7 +1289,9 @@ class CheckedCoverageInstrumentation(transformer.CheckedCoverageInstrumentationA
         Returns:
             True if the line should be instrumented, False otherwise.
         """
-        return instr.lineno != lineno
+        # Instructions without a line number (e.g., the implicit exception handler of a
+        # generator) do not belong to any source line.
+        return isinstance(instr.lineno, int) and instr.lineno != lineno
 
     def visit_node(  # noqa: D102
         self,
